@@ -217,18 +217,27 @@ def save_calibrator_state(  # noqa: PLR0913
             data = series_file["data"]  # Get the existing dataset
             previous_shape = data.shape  # E.g., (num_rows, dim2, dim3, ...)
             nb_rows = previous_shape[0]
-            to_append = series_samp[nb_rows:]  # Slicing out only the new part
 
-            # Resize the first dimension so there's room for the new data
-            new_num_rows = nb_rows + to_append.shape[0]
-            data.resize((new_num_rows,) + previous_shape[1:])
+            # Appending is only correct if the file holds the first rows of the series being saved;
+            # a file left by another run (or a longer history) is rewritten from scratch instead.
+            is_prefix = (
+                previous_shape[1:] == series_samp.shape[1:]
+                and nb_rows <= series_samp.shape[0]
+                and np.array_equal(data[:], series_samp[:nb_rows], equal_nan=True)
+            )
+            if is_prefix:
+                to_append = series_samp[nb_rows:]  # Slicing out only the new part
 
-            # Write the appended portion
-            data[nb_rows:new_num_rows] = to_append
+                # Resize the first dimension so there's room for the new data
+                new_num_rows = nb_rows + to_append.shape[0]
+                data.resize((new_num_rows,) + previous_shape[1:])
 
-        return
+                # Write the appended portion
+                data[nb_rows:new_num_rows] = to_append
 
-    # If the file does not exist, create it and store the entire dataset in one shot.
+                return
+
+    # If the file does not exist (or holds other data), create it and store the entire dataset in one shot.
     with h5py.File(series_filepath, mode="w") as series_file:
         # Create a resizable (maxshape=None along axis 0) dataset
         data = series_file.create_dataset(
